@@ -141,6 +141,12 @@ def check(prog: Program, rep):
     if _pa(prog, rep, "C07.R8", [prog.own_method(c, "is_valid_solution") for c in ['kLeastAbsErrors', 'kLeastAbsErrorsCycles']],
            "is_valid_solution() reports the model's own optimal solution invalid (5 - 7 = 254 for np.uint8)") < 2:
         raise _AE("is_valid_solution: the comparison of the flow values with the load of the routes was not found")
+    # the thresholds of the length-coverage rows (and of the greedy check against them) are sums of the caller's edge lengths
+    if _pa(prog, rep, "C07.R8", [prog.own_method("AbstractPathModelDAG", m) for m in ("_encode_paths", "verify_edge_position", "verify_path_length")] +
+           [prog.own_method("kFlowDecomp", "_get_solution_with_greedy")],
+           "the total length of a constraint wraps around (np.uint16 40000 + 30000 = 4464) while the coefficients of the same row are float(): a path covering 30000 of 70000 "
+           "passes the coverage 0.5 and the optimum 0 is reported instead of 10") < 3:
+        raise _AE("_encode_paths: the sums of the edge lengths were not found")
     # the consumers replace the product of an edge flagged `= 1` / `= 0` by the weight / by 0: the flag has to be set exactly where the matching constraint
     # (or queued fix) is stated (C05.R1)
     from rules.common import RuleProxy as _RPf
